@@ -14,10 +14,18 @@ SUITE = ("cargo nextest run --workspace --no-fail-fast --tool-config-file pb:/w/
 
 
 def sh(cmd, cwd, env=None, timeout=7200):
+    """Returns (rc, output); a command that does not finish in time is killed with its process group and reported as rc 124."""
     e = dict(os.environ)
     e.update(env or {})
-    p = subprocess.run(cmd, shell=True, cwd=cwd, env=e, stdout=subprocess.PIPE, stderr=subprocess.STDOUT, text=True, timeout=timeout)
-    return p.returncode, p.stdout
+    p = subprocess.Popen(cmd, shell=True, cwd=cwd, env=e, stdout=subprocess.PIPE, stderr=subprocess.STDOUT, text=True, start_new_session=True)
+    try:
+        out, _ = p.communicate(timeout=timeout)
+        return p.returncode, out
+    except subprocess.TimeoutExpired:
+        import signal
+        os.killpg(p.pid, signal.SIGKILL)
+        out, _ = p.communicate()
+        return 124, (out or "") + "\n[timed out after %ds]" % timeout
 
 
 def main():
@@ -44,12 +52,12 @@ def main():
         dest = os.path.join(wt, crate, "tests", tname + ".rs")
         sh("mkdir -p %s && cp %s %s" % (os.path.dirname(dest), os.path.join(d, "demo.rs"), dest), wt)
         demo_cmd = "cargo test -p %s --offline --test %s" % (crate, tname)
-        rc0, out0 = sh(demo_cmd, wt, env)
+        rc0, out0 = sh(demo_cmd, wt, env, timeout=1800)
         rcp, outp = sh("patch -p1 -s < %s" % os.path.join(d, "patch.diff"), wt)
         if rcp != 0:
             print("SEED %s: patch does not apply to %s: %s" % (s, head, outp[-300:]))
             continue
-        rc1, out1 = sh(demo_cmd, wt, env)
+        rc1, out1 = sh(demo_cmd, wt, env, timeout=900)      # a demo that hangs with the change counts as failing
         rc2, out2 = sh(SUITE + " -E 'not binary(%s)'" % tname, wt, env)
         summ = [l for l in out2.splitlines() if "Summary" in l or "tests run" in l]
         failed = sorted(set(re.findall(r"^\s+(?:FAIL|TIMEOUT|SIGTERM|SIGKILL|TERMINATING)\s+\[[^\]]*\]\s+(?:\([^)]*\)\s+)?(\S+ \S+)", out2, re.M)))
@@ -64,7 +72,7 @@ def main():
                     break
             if not ok:
                 still.append(f)
-        conf = {"tree": head, "demo_unpatched": "pass" if rc0 == 0 else "FAIL", "demo_patched": "fail" if rc1 != 0 else "PASS",
+        conf = {"tree": head, "demo_unpatched": "pass" if rc0 == 0 else "FAIL", "demo_patched": ("fail (hangs: killed after 900 s)" if rc1 == 124 else "fail") if rc1 != 0 else "PASS",
                 "suite_patched": (summ[-1].strip() if summ else "no summary (rc=%d)" % rc2),
                 "suite_failures_first_run": failed, "suite_failures_after_rerun_alone": still,
                 "what_i_ran": ["scratch clone of /repo at %s outside /repo and /verif" % head, demo_cmd + "   (before and after `patch -p1 < patch.diff`)",
